@@ -277,10 +277,10 @@ fn shared_kinds(ctx: &mut Ctx) {
     shared_kind::<(i32, String)>(ctx, "tuple", (1, "x".into()), None);
     shared_kind::<PlainLeaf>(ctx, "struct", PlainLeaf { name: "n".into() }, None);
     shared_kind::<Pay>(ctx, "unit variant", Pay::U, None);
-    // F65 (open): the anchor of a shared enum value with a payload lands on the payload's first scalar
-    shared_kind::<Pay>(ctx, "newtype variant", Pay::N(1), Some("F65:shared-enum-payload"));
-    shared_kind::<Pay>(ctx, "tuple variant", Pay::T(1, "x".into()), Some("F65:shared-enum-payload"));
-    shared_kind::<Pay>(ctx, "struct variant", Pay::St { x: 1 }, Some("F65:shared-enum-payload"));
+    // F65 (fixed): the anchor of a shared enum value with a payload belongs before the variant label
+    shared_kind::<Pay>(ctx, "newtype variant", Pay::N(1), None);
+    shared_kind::<Pay>(ctx, "tuple variant", Pay::T(1, "x".into()), None);
+    shared_kind::<Pay>(ctx, "struct variant", Pay::St { x: 1 }, None);
 
     // F64 (open): a weak reference serialized before its strong target carries the definition
     ctx.direct_evaluations += 1;
